@@ -22,8 +22,29 @@ def main(argv) -> int:
 
         os.environ["NUMBA_THREADING_LAYER"] = layer
     mod = load_prop(prop)
-    if hasattr(mod, "warm"):
+    if sc.get("warmup_only"):
+        # the library's most basic calls kill the interpreter: the recorded failure is this process dying
         mod.warm()
+        print(f"REPLAY-CLEAN property={prop} (expected {expect.get('class')})")
+        return 0
+    if hasattr(mod, "warm"):
+        try:
+            mod.warm()
+        except Exception:  # noqa: BLE001,S110 - judged inside the run
+            pass
+    if sc.get("history"):
+        # a failure that needs what the process executed before (memory corrupted by earlier calls): re-execute
+        # the worker's scenarios in order; the recorded failure is this process dying
+        from .worker import make_scenario
+
+        h = sc["history"]
+        i = int(h["stripe"])
+        while i <= int(h["upto"]):
+            run_scenario(mod, make_scenario(mod, prop, int(h["seed"]), i, h["tier"]))
+            i += int(h["nstripes"])
+        cleanup_scratch()
+        print(f"REPLAY-CLEAN property={prop} (expected {expect.get('class')})")
+        return 0
     out = run_scenario(mod, sc)
     cleanup_scratch()
     print(f"VERIF_SEED={sc.get('seed')} run={sc.get('run')} replay={path}")
